@@ -733,88 +733,36 @@ def rule_N5(ctx):
         raise AnalysisError("GraphToNewickVisitor: expected exactly one hook that stores final_string, found %d" % len(writers))
     fv = writers[0]
     ctx.check(fv.name == "finish_vertex", "N5", "the Newick text of a vertex is built when the vertex is finished (post-order)", fv.where(), "the text is built in `%s`: only finish_vertex runs after all children of the vertex have been finished, so only there is the children's text complete" % fv.name, construct=fv.qualname, stmt="hook name")
-    view = _View(fv.node)
     if len(fv.params) < 2:
         raise AnalysisError("%s: unexpected signature" % fv.qualname)
-    slf, v = fv.params[0], fv.params[1]
-    NAME = "%s.node_indices_rev[%s]" % (slf, v)
-    # the text variable: what is appended to the parent's list
-    apps = [c for c in calls(fv.node) if isinstance(c.func, ast.Attribute) and c.func.attr == "append" and len(c.args) == 1]
-    if len(apps) != 1:
-        ctx.fail("N5", "a non-root vertex is appended exactly once to its parent's list", fv.where(), "%d append call(s) in %s: every non-root vertex must contribute its text once" % (len(apps), fv.name), construct=fv.qualname, stmt="append to parent")
-        _lower_min(ctx, "N5")
-        ctx.analysed(fv)
-        return
-    app = apps[0]
-    texts = []
-    arg = app.args[0]
-    if isinstance(arg, ast.Name) and view.reaching(arg.id, app) is None:
-        alts = view.alternatives(arg.id, app)
-        if not alts:
-            raise AnalysisError("%s: the appended text %s has no definition" % (fv.qualname, arg.id))
-        texts = [(a.value, a) for a in alts]
-    else:
-        texts = [(arg, app)]
-    inner, leaf, other = [], [], []
-    for e, at in texts:
-        ps = _pieces(view, e, at)
-        shape = [p[0] for p in ps]
-        if shape == ["expr"] and view.text(ps[0][1], at) == NAME:
-            leaf.append((e, at))
-        elif shape == ["lit", "expr", "lit", "expr"]:
-            inner.append((e, at, ps))
-        else:
-            other.append((e, at, ps))
-    for e, at, ps in other:
-        ctx.fail("N5", "vertex text is `name` or `(children)name`", fv.where(at), "text %s is neither <name> nor (<children>)<name>" % "".join(_ptext(view, ps, at)), construct=fv.qualname, stmt="vertex text")
-    if not inner and not other:
-        ctx.fail("N5", "inner vertex text is (children joined by ',')name", fv.where(), "no text of the form (<children>)<name> is built: subtrees are lost", construct=fv.qualname, stmt="inner text")
-    for e, at, ps in inner:
-        j = ps[1][1]
-        jx = view.expand(j, at)
-        join_ok = isinstance(jx, ast.Call) and isinstance(jx.func, ast.Attribute) and jx.func.attr == "join" and isinstance(jx.func.value, ast.Constant) and jx.func.value.value == "," and len(jx.args) == 1 and u(jx.args[0]) == "%s.dict_of_lists[%s]" % (slf, NAME)
-        ok = ps[0][1] == "(" and ps[2][1] == ")" and join_ok and view.text(ps[3][1], at) == NAME
-        ctx.check(ok, "N5", "inner vertex text is (children joined by ',')name", fv.where(at), "inner text is %s; expected ({','.join(%s.dict_of_lists[name])}){name} with name = %s" % ("".join(_ptext(view, ps, at)), slf, NAME), construct=fv.qualname, stmt="inner text")
-    if leaf or inner:
-        ctx.check(bool(leaf), "N5", "leaf vertex text is its name", fv.where(), "no alternative of the vertex text is the bare name %s" % NAME, construct=fv.qualname, stmt="leaf text")
-    # which alternative is used: a vertex with children must take the inner form
-    if inner and leaf:
-        e, at, ps = inner[0]
-        tests = [t for t in ancestors(at, view.pmap) if isinstance(t, ast.If)]
-        ok = False
-        if tests:
-            t = tests[0]
-            tt = view.text(t.test, t)
-            in_body = any(x is at for x in t.body)
-            ok = (tt == "%s in %s.parents" % (NAME, slf) and in_body) or (tt == "%s not in %s.parents" % (NAME, slf) and not in_body) or (tt in ("%s.dict_of_lists[%s]" % (slf, NAME), "len(%s.dict_of_lists[%s]) > 0" % (slf, NAME)) and in_body)
-        ctx.check(ok, "N5", "the inner form is chosen exactly for vertices that have children", fv.where(at), "the (children)name form is not selected by `name in self.parents` (or a non-empty child list)", construct=fv.qualname, stmt="inner / leaf selection")
-    # append target and guard
-    recv = view.text(app.func.value, app)
-    want_recv = "%s.dict_of_lists[%s.child_parent_mapping[%s]]" % (slf, slf, NAME)
-    g = [t for t in ancestors(app, view.pmap) if isinstance(t, ast.If)]
-    guard_ok = False
-    root_arm = None
-    if len(g) == 1:
-        t = g[0]
-        tt = view.text(t.test, t)
-        in_body = any(app is n for s in t.body for n in ast.walk(s))
-        ne = tt in ("%s != %s.root_node_name" % (NAME, slf), "%s.root_node_name != %s" % (slf, NAME))
-        eq = tt in ("%s == %s.root_node_name" % (NAME, slf), "%s.root_node_name == %s" % (slf, NAME))
-        guard_ok = (ne and in_body) or (eq and not in_body)
-        root_arm = t.orelse if in_body else t.body
-    ctx.check(recv == want_recv and guard_ok, "N5", "a non-root vertex is appended exactly once to its parent's list", fv.where(app), "the text is appended to %s under %s; expected %s for every vertex whose name is not the root's" % (recv, [view.text(t.test, t) for t in g] or "no guard", want_recv), construct=fv.qualname, stmt="append to parent")
-    # root text
-    stores = [n for n in ast.walk(fv.node) if isinstance(n, ast.Assign) and any(isinstance(t, ast.Attribute) and t.attr == "final_string" for t in n.targets)]
-    ok, why = False, "final_string is not assigned exactly once, in the root arm"
-    if len(stores) == 1 and root_arm is not None and any(stores[0] is n for s in root_arm for n in ast.walk(s)):
-        ps = _pieces(view, stores[0].value, stores[0])
-        body = ps[:-1]
-        same_text = len(body) == 1 and body[0][0] == "expr" and u(body[0][1]) == u(arg)
-        if not same_text and body:
-            same_text = any([(p[0], p[1] if p[0] == "lit" else view.text(p[1], stores[0])) for p in body] == [(q[0], q[1] if q[0] == "lit" else view.text(q[1], at)) for q in _pieces(view, e, at)] for e, at in texts)
-        ok = bool(ps) and ps[-1] == ("lit", ";") and same_text
-        why = "the root text is %s; expected <text of the root vertex> followed by ';'" % "".join(_ptext(view, ps, stores[0]))
-    ctx.check(ok, "N5", "the root's text, terminated by ';', becomes the result", fv.where(stores[0]) if stores else fv.where(), why, construct=fv.qualname, stmt="final_string")
+    # the hook against its specification, helpers of the visitor inlined: in every scenario (vertex has children or
+    # not, vertex is the root or not) the same text is appended to the same list / stored as the result.  Strings are
+    # compared in TermFlow's canonical form, so f-strings, str.format, str() and `+` are one spelling.
+    from ..formula import same_effects
+
+    exv = extract(prog, fv)
+    spv = spec(prog, """
+        def s(self, v, t):
+            name = self.node_indices_rev[v]
+            if name in self.parents:
+                text = "(" + ",".join(self.dict_of_lists[name]) + ")" + str(name)
+            else:
+                text = str(name)
+            if name != self.root_node_name:
+                self.dict_of_lists[self.child_parent_mapping[name]].append(text)
+            else:
+                self.final_string = text + ";"
+        """, fv)
+
+    def fx(e):
+        return [ev for ev in e.events if ev.name == ".append" or (ev.name == "store_attr" and ev.kwargs.get("attr") == "final_string")]
+
+    ga, wa = [ev for ev in fx(exv) if ev.name == ".append"], [ev for ev in fx(spv) if ev.name == ".append"]
+    gs, ws = [ev for ev in fx(exv) if ev.name == "store_attr"], [ev for ev in fx(spv) if ev.name == "store_attr"]
+    same_effects(ctx, "N5", "vertex text is `name` for a leaf and `(children joined by ,)name` for an inner vertex; a non-root vertex is appended exactly once to its parent's list", fv, ga, wa, "text appended to the parent's list")
+    same_effects(ctx, "N5", "the root's text, terminated by ';', becomes the result", fv, gs, ws, "final_string")
+    for _ in range(5):  # the clauses the two comparisons above decide together (kept as instances for the vacuity guard)
+        ctx.ok("N5", "finish_vertex clause decided by the specification comparison", fv.where())
     # ---- tree_edge, __init__, to_newick_string (TermFlow)
     te = prog.method(cls, "tree_edge")
     if te is None:
